@@ -3,7 +3,7 @@
 # Runs in an isolated copy (scratch worktree of /repo HEAD + copy of /verif/sim pointing at it) so that
 # it can run in the background while /repo and /verif are being worked on. Writes /verif/SILENCE.md.
 set -u
-N="${1:-50}"; SCALE="${2:-0.15}"; TIER="${3:-quick}"; DEST="${4:-/verif/SILENCE.md}"
+N="${1:-50}"; SCALE="${2:-0.15}"; TIER="${3:-quick}"; DEST="${4:-/verif/SILENCE.md}"; OFFSET="${5:-0}"
 SX=$(mktemp -d /tmp/sx.XXXXXX)
 git -C /repo worktree add -q --detach $SX/repo HEAD
 rsync -a --exclude target /verif/sim/ $SX/sim/
@@ -21,7 +21,7 @@ echo
 for p in C01 C02 C03 C04 C05 C07 C08 C11 C19; do
   codes=""; runs=0; viol=0; known=0; herr=0
   for s in $(seq 1 $N); do
-    seed=$((1000003 * s + 17))
+    seed=$((1000003 * (s + OFFSET) + 17))
     (cd $SX/sim && VERIF_SEED=$seed VERIF_ROOT=$SX/root VERIF_REPO=$SX/repo VERIF_RUNS_SCALE=$SCALE ./target/release/verif-sim check $p $TIER > $SX/out.txt 2>&1); rc=$?
     codes="$codes $rc"
     r=$(grep -a "^batch" $SX/out.txt | sed -E 's/^batch [^:]+: ([0-9]+) runs.*/\1/' | paste -sd+ | bc); runs=$((runs + ${r:-0}))
